@@ -63,7 +63,7 @@ typedef struct {
   int prog;			/* 0 addw 1 no rule on target (float on mmx) 2 register exhaustion 3 fatal */
 } Cfg;
 static const char *orc_codes[] = { NULL, "emulate", "backup", "debug", "backup,emulate" };
-static const char *prognames[] = { "addw", "norule", "regs", "fatal" };
+static const char *prognames[] = { "addw", "norule", "regs", "fatal", "gpregs" };
 static const char *scratch;
 
 static int backup_calls;
@@ -101,6 +101,23 @@ static OrcProgram *mk (int kind)
       }
       for (i = 1; i < 14; i++) { sprintf (nm, "t%d", i + 1); orc_program_append_str (p, "xorw", "t1", "t1", nm); }
       orc_program_append_str (p, "addw", "d1", "t1", "s1");
+      break;
+    case 4:
+      /* general-register exhaustion: 12 array pointers plus the offset registers of two resampled sources, no
+       * register left for the loop counter */
+      p = orc_program_new ();
+      for (i = 0; i < 4; i++) { sprintf (nm, "d%d", i + 1); orc_program_add_destination (p, 4, nm); }
+      for (i = 0; i < 8; i++) { sprintf (nm, "s%d", i + 1); orc_program_add_source (p, 4, nm); }
+      orc_program_add_temporary (p, 4, "t1");
+      orc_program_add_temporary (p, 4, "t2");
+      orc_program_add_constant (p, 4, 0, "c1");
+      orc_program_add_constant (p, 4, 0x10000, "c2");
+      orc_program_append_2 (p, "ldresnearl", 0, orc_program_find_var_by_name (p, "t1"), orc_program_find_var_by_name (p, "s7"), orc_program_find_var_by_name (p, "c1"), orc_program_find_var_by_name (p, "c2"));
+      orc_program_append_2 (p, "ldresnearl", 0, orc_program_find_var_by_name (p, "t2"), orc_program_find_var_by_name (p, "s8"), orc_program_find_var_by_name (p, "c1"), orc_program_find_var_by_name (p, "c2"));
+      orc_program_append_str (p, "addl", "d1", "t1", "s1");
+      orc_program_append_str (p, "addl", "d2", "t2", "s2");
+      orc_program_append_str (p, "addl", "d3", "s3", "s4");
+      orc_program_append_str (p, "addl", "d4", "s5", "s6");
       break;
     default:
       p = orc_program_new_dss (2, 2, 2);
@@ -169,6 +186,34 @@ static int one_use (const Cfg * c, char *msg, size_t cap, int *native)
   *native = p->code_exec && p->code_exec != (void *) orc_executor_emulate && p->code_exec != (void *) backup_fn;
   for (i = 0; i < 64; i++) { s1[i] = (unsigned char) (i * 7 + 1); s2[i] = (unsigned char) (i * 3 + 2); d[i] = 0x5a; e[i] = 0x5a; }
   if (c->prog == 1) { float v1[8] = { 1.5f, 2.25f, -3.0f, 100.0f, 0.5f, 8.0f, -0.25f, 9.0f }, v2[8] = { 2.5f, 1.0f, 3.0f, 0.125f, 0.5f, -8.0f, 0.25f, 1.0f }; memcpy (s1, v1, 32); memcpy (s2, v2, 32); }
+  if (c->prog == 4) {
+    /* twelve arrays; the oracle is the emulator itself on a second set of destinations */
+    static orc_int32 S[8][16], D[4][16], E[4][16];
+    OrcExecutor exr;
+    int k;
+    for (k = 0; k < 8; k++) for (i = 0; i < 16; i++) S[k][i] = (k + 1) * 1000003 + i * 7919;
+    memset (D, 0x5a, sizeof (D)); memset (E, 0x5a, sizeof (E));
+    memset (ex, 0, sizeof (*ex));
+    memset (&exr, 0, sizeof (exr));
+    orc_executor_set_program (&exr, p);
+    exr.n = n;
+    for (k = 0; k < 4; k++) exr.arrays[ORC_VAR_D1 + k] = E[k];
+    for (k = 0; k < 8; k++) exr.arrays[ORC_VAR_S1 + k] = S[k];
+    orc_executor_emulate (&exr);
+    if (c->codeonly) { code = orc_program_take_code (p); orc_program_free (p); p = NULL; ex->arrays[ORC_VAR_A2] = code; }
+    else orc_executor_set_program (ex, p);
+    ex->n = n;
+    for (k = 0; k < 4; k++) ex->arrays[ORC_VAR_D1 + k] = D[k];
+    for (k = 0; k < 8; k++) ex->arrays[ORC_VAR_S1 + k] = S[k];
+    orc_executor_run (ex);
+    calls = backup_calls - before;
+    if (calls > 1) { snprintf (msg, cap, "backup function called %d times for one run", calls); goto bad; }
+    if (calls == 1) { if (!c->backup) { snprintf (msg, cap, "backup ran although none was registered"); goto bad; } }
+    else if (memcmp (D, E, sizeof (D))) { snprintf (msg, cap, "result of the 12-array program differs from the emulation result (d1[0]=0x%08x, emulation 0x%08x)", D[0][0], E[0][0]); goto bad; }
+    if (code) orc_code_free (code);
+    if (p) orc_program_free (p);
+    return 0;
+  }
   expected (c->prog, s1, s2, e, n);
   memset (ex, 0, sizeof (*ex));
   if (c->codeonly) {
@@ -326,7 +371,7 @@ int main (int argc, char **argv)
     for (i = 0; i < 3; i++) { snprintf (p, sizeof (p), "%s/d%d", scratch, i); mkdir (p, 0700); }
   }
   for (ei = 0; ei < ne; ei++) for (c.orc_code = 0; c.orc_code < 5; c.orc_code++) for (c.backup = 0; c.backup < 2; c.backup++)
-    for (c.codeonly = 0; c.codeonly < 2; c.codeonly++) for (c.prog = 0; c.prog < 4; c.prog++) {
+    for (c.codeonly = 0; c.codeonly < 2; c.codeonly++) for (c.prog = 0; c.prog < 5; c.prog++) {
       int fail[8], mask, on;
       c.envmask = thorough ? envt[ei] : envq[ei];
       if ((idx++ % nshards) != shard) continue;
